@@ -156,7 +156,7 @@ func StressFork(goroutines, iters int, timeout time.Duration, out *Out) {
 			out.Violation("panic: PubkeyCache." + o.Method + " panicked in the forked-cache scenario (sequential set-up was clean)")
 		}
 	})
-	out.Stat("race_calls_pubkeyfork", goroutines*iters)
+	out.Stat("race_calls_pubkeyfork", LastCalls)
 	out.Stat("race_ops_pubkeyfork", len(ops))
 	if ok {
 		fmt.Fprintf(out.W, "returned stress-race pubkeyfork\n")
